@@ -278,7 +278,13 @@ func c02(c *Ctx) {
 		okCap := false
 		if cap != nil {
 			for _, g := range an.Guards(cap) {
-				if bo, ok := g.Cond.(*ssa.BinOp); ok && bo.Op == token.LSS && !g.Truth && strings.HasSuffix(an.Path(bo.X), ".runtimeQuota") && strings.HasSuffix(an.Path(bo.Y), ".request") {
+				// runtime >= request holds: written as !(runtime < request), runtime >= request or request <= runtime
+				rel, isRel := an.RelOf(g)
+				if !isRel {
+					continue
+				}
+				rq, rr := strings.HasSuffix(an.Path(rel.X), ".runtimeQuota") && strings.HasSuffix(an.Path(rel.Y), ".request"), strings.HasSuffix(an.Path(rel.Y), ".runtimeQuota") && strings.HasSuffix(an.Path(rel.X), ".request")
+				if (rq && rel.Op == token.GEQ) || (rr && rel.Op == token.LEQ) {
 					okCap = true
 				}
 			}
